@@ -661,6 +661,59 @@ fn gen_refprove(thorough: bool, rng: &mut Rng) -> Result<(), String> {
             "impl": {"exec": {"op": "verify_proof", "in": {"def": name, "req": req.to_json(), "common": ["master_secret"], "nonce": nonce}}, "expect_accept": true},
             "class": {"kind": "reference-prover", "npred": req.predicates.len(), "nrevealed": req.revealed.len(), "def": name}}));
     }
+    // several credentials of one holder, one challenge (the model's proveMulti), common link secret
+    let nm = if thorough { 40 } else { 4 };
+    for k in 0..nm {
+        let ncred = 2 + (k % 2);
+        let link = dec_of_hex(&rng.hex_bits(255));
+        let draw = |rng: &mut Rng, bits: usize| dec_of_hex(&rng.hex_bits(bits));
+        let seed = draw(rng, 592);
+        let mut creds = vec![];
+        let mut defs = vec![];
+        let mut reqs = vec![];
+        let mut npred = 0;
+        for _ in 0..ncred {
+            let name = rng.pick(&names).clone();
+            let cd = pool.get(&name);
+            let h = hold(&pool, &name, &link, rng)?;
+            let req = random_request(&h, rng, true);
+            let mut vals: BTreeMap<String, String> = h.known.clone();
+            for (a, v) in &h.hidden { vals.insert(a.clone(), v.clone()); }
+            let mut m_tilde = BTreeMap::new();
+            for a in cd.attrs.iter().chain(cd.non_attrs.iter()) {
+                if !req.revealed.contains(a) && a != "master_secret" {
+                    m_tilde.insert(a.clone(), draw(rng, 592));
+                }
+            }
+            let mut ptapes = vec![];
+            for _ in &req.predicates {
+                let mut r = BTreeMap::new();
+                let mut ut = BTreeMap::new();
+                let mut rt = BTreeMap::new();
+                for i in 0..4 {
+                    r.insert(i.to_string(), draw(rng, 2128));
+                    ut.insert(i.to_string(), draw(rng, 592));
+                    rt.insert(i.to_string(), draw(rng, 672));
+                }
+                r.insert("DELTA".to_string(), draw(rng, 2128));
+                rt.insert("DELTA".to_string(), draw(rng, 672));
+                ptapes.push(json!({"r": r, "u_tilde": ut, "r_tilde": rt, "alpha_tilde": draw(rng, 2787)}));
+            }
+            npred += req.predicates.len();
+            creds.push(json!({"pk": jv(&cd.pk)["p_key"], "sig": jv(&h.cred.sig)["p_credential"], "values": vals, "schema": cd.attrs,
+                "non_schema": cd.non_attrs, "req": req.to_json(),
+                "tape": {"r": draw(rng, 2128), "e_tilde": draw(rng, 456), "v_tilde": draw(rng, 3060), "m_tilde": m_tilde,
+                         "m2_tilde": draw(rng, 2432), "preds": ptapes}}));
+            defs.push(name.clone());
+            reqs.push(req.to_json());
+        }
+        let nonce = new_nonce().map_err(|e| e.to_string())?.to_dec().unwrap_or_default();
+        let common: BTreeMap<String, String> = [("master_secret".to_string(), seed)].into_iter().collect();
+        emit(&json!({"id": format!("refprove/multi/{}", k), "op": "prove_multi",
+            "in": {"backend": backend_str(), "mode": mode_str(), "common": common, "nonce": nonce, "creds": creds},
+            "impl": {"exec": {"op": "verify_proof_multi", "in": {"defs": defs, "reqs": reqs, "common": ["master_secret"], "nonce": nonce}}, "expect_accept": true},
+            "class": {"kind": "reference-prover-multi", "ncred": ncred, "npred": npred}}));
+    }
     Ok(())
 }
 
@@ -681,6 +734,34 @@ pub fn exec(op: &str, inp: &Value) -> Option<Result<Value, String>> {
                     let mut pv = Verifier::new_proof_verifier()?;
                     for a in &common { pv.add_common_attribute(a)?; }
                     pv.add_sub_proof_request(&req.build().map_err(|e| err_msg_s(&e))?, &cd.schema, &cd.non_schema, &cd.pk, None, None)?;
+                    pv.verify(&p, &nonce)
+                }),
+                Err(e) => Out::Err(format!("decode: {}", e)),
+            };
+            Ok(out_bool_json(&res))
+        })()),
+        "verify_proof_multi" => Some((|| {
+            let defs: Vec<String> = from_jv(&inp["defs"])?;
+            let common: Vec<String> = from_jv(&inp["common"])?;
+            let nonce = bn::BigNumber::from_dec(inp["nonce"].as_str().unwrap_or("")).map_err(|e| e.to_string())?;
+            let mut cds = vec![];
+            let mut reqs = vec![];
+            for (i, d) in defs.iter().enumerate() {
+                cds.push(load_fixture(d)?);
+                let rj = &inp["reqs"][i];
+                let revealed: Vec<String> = from_jv(&rj["revealed"])?;
+                let predicates: Vec<PredSpec> = rj["predicates"].as_array().map(|a| a.iter().map(|p| PredSpec {
+                    attr: p["attr_name"].as_str().unwrap_or("").to_string(), ptype: p["p_type"].as_str().unwrap_or("").to_string(),
+                    value: p["value"].as_i64().unwrap_or(0) as i32 }).collect()).unwrap_or_default();
+                reqs.push(ReqSpec { revealed, predicates });
+            }
+            let res: Out<bool> = match from_jv::<Proof>(&inp["proof"]) {
+                Ok(p) => guard(|| {
+                    let mut pv = Verifier::new_proof_verifier()?;
+                    for a in &common { pv.add_common_attribute(a)?; }
+                    for (cd, req) in cds.iter().zip(reqs.iter()) {
+                        pv.add_sub_proof_request(&req.build().map_err(|e| err_msg_s(&e))?, &cd.schema, &cd.non_schema, &cd.pk, None, None)?;
+                    }
                     pv.verify(&p, &nonce)
                 }),
                 Err(e) => Out::Err(format!("decode: {}", e)),
